@@ -153,7 +153,7 @@ func (e *Engine) run(st0 *State, stopDepth int, sink func(o *Outcome)) {
 			if st.steps > maxSteps {
 				unsupported("step limit exceeded in %s", st.top().fn.Name())
 			}
-			forks, done := e.step(st, stopDepth)
+			forks, done := e.stepGuard(st, stopDepth)
 			if done != nil {
 				paths++
 				if paths > e.MaxPaths {
@@ -174,6 +174,25 @@ func (e *Engine) run(st0 *State, stopDepth int, sink func(o *Outcome)) {
 			}
 		}
 	}
+}
+
+// NilDeref: a nil pointer dereference on the current path: Go panics there, the path ends as a panic outcome
+// (mostly on branches that are semantically infeasible, e.g. `x, err := f(); if err != nil {return}; x.F`).
+type NilDeref struct{ Msg string }
+
+func (e *Engine) stepGuard(st *State, stopDepth int) (forks []*State, done *Outcome) {
+	defer func() {
+		if r := recover(); r != nil {
+			if nd, ok := r.(*NilDeref); ok {
+				st.panicked = true
+				st.panicMsg = nd.Msg + " in " + st.top().fn.Name()
+				forks, done = nil, &Outcome{St: st, Panicked: true}
+				return
+			}
+			panic(r)
+		}
+	}()
+	return e.step(st, stopDepth)
 }
 
 // step executes one instruction of the top frame. Returns (forks, nil) when the state forked or ended
@@ -913,7 +932,7 @@ func (e *Engine) load(st *State, addr Val, t types.Type) Val {
 		unsupported("load through %s", valString(addr))
 	}
 	if p.Nil {
-		unsupported("nil dereference on path (modelled as panic)")
+		panic(&NilDeref{"nil pointer dereference"})
 	}
 	if p.Opaque != nil {
 		if p.Opaque.S == "Global" {
@@ -948,7 +967,7 @@ func (e *Engine) store(st *State, addr Val, v Val) {
 		unsupported("store through %s", valString(addr))
 	}
 	if p.Nil {
-		unsupported("store through nil pointer")
+		panic(&NilDeref{"store through nil pointer"})
 	}
 	if p.Opaque != nil {
 		if p.Opaque.S == "Global" {
@@ -985,7 +1004,7 @@ func (e *Engine) fieldAddr(st *State, p Val, field int, t types.Type) Val {
 		unsupported("FieldAddr on %s", valString(p))
 	}
 	if pv.Nil {
-		unsupported("field of nil pointer")
+		panic(&NilDeref{"field of nil pointer"})
 	}
 	if pv.Opaque != nil {
 		unsupported("field %d of opaque pointer %s", field, pv.Opaque.T)
@@ -1654,6 +1673,17 @@ func (e *Engine) typeAssert(st *State, fr *Frame, in *ssa.TypeAssert) ([]*State,
 		fr.regs[in] = res
 		return nil, nil
 	case *Term:
+		if iv.S == "Obj" {
+			if res, okT, done := e.assertView(st, iv, in.AssertedType); done {
+				if in.CommaOk {
+					fr.regs[in] = TupleV{res, okT}
+					return nil, nil
+				}
+				st.assume(okT.T) // a failing assertion panics
+				fr.regs[in] = res
+				return nil, nil
+			}
+		}
 		// opaque interface: the assertion result is unknown
 		okT := mkBool(e.C.Fresh("assert_ok", SBool))
 		res := e.freshVal(st, "asserted", in.AssertedType, 2)
